@@ -250,10 +250,165 @@ fn conn_search() {
     println!("{{\"found\": false, \"searched\": \"14 frames written by the real Connection and read back through a pipe in chunks of 1,2,3,5,7,64 bytes and all at once; stream complete and cut at 3 places\"}}");
 }
 
+// ---------------------------------------------------------------------------------------------------
+// storage scenarios: every one runs the real store in a fresh temp dir and compares with a map model
+mod store {
+    use bitcask::storage::bitcask::{Config, SyncStrategy};
+    use bitcask::storage::KeyValueStorage;
+    use bytes::Bytes;
+    use std::collections::BTreeMap;
+
+    fn b(s: &str) -> Bytes { Bytes::copy_from_slice(s.as_bytes()) }
+    pub fn report(kind: &str, history: &str, observed: String, expected: &str) -> ! {
+        println!("{{\"found\": true, \"kind\": \"{}\", \"history\": {:?}, \"observed\": {:?}, \"expected\": {:?}}}", kind, history, observed, expected);
+        std::process::exit(0)
+    }
+    fn conf(dir: &std::path::Path, max: u64) -> Config {
+        let mut c = Config::default();
+        // background merges are kept out of the way by a check interval of ~11 days
+        c.path(dir).concurrency(1).max_file_size(max).sync(SyncStrategy::None).merge_check_interval_ms(1_000_000_000).merge_check_jitter(0.0);
+        c
+    }
+    fn files(dir: &std::path::Path) -> Vec<String> {
+        let mut v: Vec<String> = std::fs::read_dir(dir).unwrap().map(|e| format!("{}:{}", e.as_ref().unwrap().file_name().to_string_lossy(), e.unwrap().metadata().unwrap().len())).collect();
+        v.sort();
+        v
+    }
+
+    /// generic history runner: ops are strings "set k v" / "del k" / "get k" / "merge" / "reopen" / "precreate-data N" / "precreate-hint N"
+    pub fn run_history(max: u64, mode: &str, ops: &[&str], label: &str) {
+        let dir = tempfile::tempdir().unwrap();
+        let mk = |d: &std::path::Path| {
+            let mut c = conf(d, max);
+            match mode {
+                // every file is selected / no file is selected / exactly the files holding at least one dead entry
+                "all" => { c.merge_threshold_small_file(u64::MAX).merge_threshold_dead_bytes(0).merge_threshold_fragmentation(0.0); }
+                "frag50" => { c.merge_threshold_small_file(0).merge_threshold_dead_bytes(u64::MAX).merge_threshold_fragmentation(0.5); }
+                "none" => { c.merge_threshold_small_file(0).merge_threshold_dead_bytes(u64::MAX).merge_threshold_fragmentation(1.0); }
+                _ => { c.merge_threshold_small_file(0).merge_threshold_dead_bytes(u64::MAX).merge_threshold_fragmentation(0.0); }
+            }
+            c
+        };
+        let mut kv = Some(mk(dir.path()).open().unwrap());
+        let mut model: BTreeMap<String, String> = BTreeMap::new();
+        // a failed set / del may or may not have taken effect (C20): the alternative value of such a key
+        let mut alt: BTreeMap<String, Option<String>> = BTreeMap::new();
+        let hist = ops.join("; ");
+        for (i, op) in ops.iter().enumerate() {
+            let h = kv.as_ref().unwrap().get_handle();
+            let p: Vec<&str> = op.split(' ').collect();
+            match p[0] {
+                "set" => { match h.set(b(p[1]), b(p[2])) { Ok(()) => { model.insert(p[1].into(), p[2].into()); alt.remove(p[1]); } Err(e) => { println!("# op {} `{}` failed: {}", i, op, e); alt.insert(p[1].into(), Some(p[2].into())); } } }
+                "del" => { match h.del(b(p[1])) {
+                    Ok(was) => { let exp = model.remove(p[1]).is_some(); let unsure = alt.remove(p[1]).is_some(); if was != exp && !unsure { report(label, &hist, format!("op {} `{}` returned {}", i, op, was), &format!("{}", exp)); } }
+                    Err(e) => { println!("# op {} `{}` failed: {}", i, op, e); alt.insert(p[1].into(), None); } } }
+                "get" => { let got = h.get(b(p[1])).map(|o| o.map(|v| String::from_utf8_lossy(&v).to_string())); let exp = model.get(p[1]).cloned();
+                    match got { Ok(g) if g == exp => {}, Ok(g) if alt.get(p[1]) == Some(&g) => {}, other => report(label, &hist, format!("op {} `{}` returned {:?}; files {:?}", i, op, other, files(dir.path())), &format!("{:?}", exp)) } }
+                "merge" => { if let Err(e) = h.verif_merge() { println!("# op {} merge failed: {}", i, e); } }
+                "reopen" => { drop(h); kv = None; std::thread::sleep(std::time::Duration::from_millis(30));
+                    match mk(dir.path()).open() { Ok(k) => kv = Some(k), Err(e) => report(label, &hist, format!("op {} reopen failed: {}; files {:?}", i, e, files(dir.path())), "the directory can be opened") } }
+                "precreate-data" => { std::fs::File::create(dir.path().join(format!("{}.bitcask.data", p[1]))).unwrap(); }
+                "precreate-hint" => { std::fs::File::create(dir.path().join(format!("{}.bitcask.hint", p[1]))).unwrap(); }
+                "checkall" => { for (k, v) in model.iter() { if alt.contains_key(k) { continue; } let got = h.get(b(k)).map(|o| o.map(|v| String::from_utf8_lossy(&v).to_string()));
+                    match got { Ok(Some(g)) if &g == v => {}, other => report(label, &hist, format!("op {} checkall: key {} reads {:?}; files {:?}", i, k, other, files(dir.path())), v) } } }
+                "checkstats" => { let (kd, st) = h.verif_dump();
+                    // ground truth from the key directory: live count per file
+                    let mut live: BTreeMap<u64, u64> = BTreeMap::new();
+                    for (_, f, _, _) in kd.iter() { *live.entry(*f).or_default() += 1; }
+                    for (f, l, _d, _b) in st.iter() { let exp = live.get(f).cloned().unwrap_or(0); if *l != exp { report(label, &hist, format!("op {} file {} live_keys {} (stats {:?})", i, f, l, st), &format!("{}", exp)); } } }
+                _ => panic!("bad op {}", op),
+            }
+        }
+    }
+
+    /// bounded search: curated and pseudo-random histories against the map model (merges select every file, so the
+    /// known tombstone finding cannot interfere)
+    pub fn search(seed: u64) {
+        let curated: Vec<(u64, &str, &str)> = vec![
+            (0, "all", "set k v; del k; reopen; get k; set k w; reopen; get k; del k; del k; get k"),
+            (0, "all", "set a 1; set a 2; set b 3; checkstats; merge; checkall; checkstats; get a; reopen; checkall; checkstats; merge; checkall"),
+            (64, "all", "set a 1; set b 2; set c 3; set a 4; del b; checkstats; merge; checkall; get b; checkstats; reopen; checkall; get b; checkstats"),
+            (1 << 20, "all", "set a 1; del a; set a 2; merge; get a; reopen; get a; merge; reopen; get a; checkstats"),
+            (0, "all", "set a 1; set b 2; merge; merge; checkall; set c 3; merge; reopen; checkall; checkstats"),
+            (30, "dead", "set a 1; set b 2; set a 3; merge; checkall; reopen; checkall; checkstats"),
+            (0, "all", "precreate-data 1; set a 1; set b 2; get a; get b; reopen; get a; get b"),
+        ];
+        for (max, mode, ops) in curated.iter() {
+            let v: Vec<&str> = ops.split(';').map(|s| s.trim()).collect();
+            run_history(*max, mode, &v, "history");
+        }
+        let mut x = seed.wrapping_mul(6364136223846793005).wrapping_add(1442695040888963407);
+        let mut next = move |n: u64| { x = x.wrapping_mul(6364136223846793005).wrapping_add(1442695040888963407); (x >> 33) % n };
+        for _ in 0..40 {
+            let max = [0u64, 40, 100, 1 << 20][next(4) as usize];
+            let n = 6 + next(14);
+            let mut ops: Vec<String> = Vec::new();
+            for _ in 0..n {
+                let k = format!("k{}", next(3));
+                match next(10) {
+                    0..=3 => ops.push(format!("set {} v{}", k, next(5))),
+                    4..=5 => ops.push(format!("del {}", k)),
+                    6 => ops.push("merge".into()),
+                    7 => ops.push("reopen".into()),
+                    _ => ops.push(format!("get {}", k)),
+                }
+                ops.push("checkstats".into());
+            }
+            ops.push("checkall".into()); ops.push("reopen".into()); ops.push("checkall".into()); ops.push("checkstats".into());
+            let v: Vec<&str> = ops.iter().map(|s| s.as_str()).collect();
+            run_history(max, "all", &v, "history");
+        }
+        println!("{{\"found\": false, \"searched\": \"7 curated and 40 pseudo-random histories (set/del/get/merge/reopen over 3 keys, max_file_size in 0,40,100,1M) against the map model incl. live-key accounting\"}}");
+    }
+
+    /// D11: an append that fails mid-entry (RLIMIT_FSIZE makes write(2) fail with EFBIG after a partial write)
+    /// leaves a partial record that later appends follow; after a restart acknowledged data is gone.
+    pub fn torn_append() {
+        unsafe { libc::signal(libc::SIGXFSZ, libc::SIG_IGN); }
+        let dir = tempfile::tempdir().unwrap();
+        let kv = conf(dir.path(), 1 << 30).open().unwrap();
+        let h = kv.get_handle();
+        h.set(b("a"), b("1")).unwrap();
+        let big = "x".repeat(100_000);
+        let mut lim = libc::rlimit { rlim_cur: 0, rlim_max: 0 };
+        unsafe { libc::getrlimit(libc::RLIMIT_FSIZE, &mut lim); }
+        let old = lim;
+        lim.rlim_cur = 40_000;
+        unsafe { libc::setrlimit(libc::RLIMIT_FSIZE, &lim); }
+        let r = h.set(b("big"), b(&big));
+        unsafe { libc::setrlimit(libc::RLIMIT_FSIZE, &old); }
+        let hist = "set a 1; [file size limit 40000 bytes] set big <100000 bytes> (fails); [limit lifted] set k2 v2; get k2; reopen; get k2; get a";
+        if r.is_ok() { println!("{{\"found\": false, \"note\": \"the oversized write did not fail\"}}"); return; }
+        h.set(b("k2"), b("v2")).unwrap();
+        let now = h.get(b("k2"));
+        drop(h); drop(kv); std::thread::sleep(std::time::Duration::from_millis(30));
+        match conf(dir.path(), 1 << 30).open() {
+            Err(e) => report("torn-append", hist, format!("reopen failed: {}", e), "the directory can be opened and k2 reads v2"),
+            Ok(kv2) => {
+                let h2 = kv2.get_handle();
+                let after = h2.get(b("k2")).map(|o| o.map(|v| String::from_utf8_lossy(&v).to_string()));
+                let a = h2.get(b("a")).map(|o| o.map(|v| String::from_utf8_lossy(&v).to_string()));
+                if !matches!(&after, Ok(Some(v)) if v == "v2") || !matches!(&a, Ok(Some(v)) if v == "1") {
+                    report("torn-append", hist, format!("before restart get k2 = {:?}; after restart get k2 = {:?}, get a = {:?}", now.map(|o| o.is_some()), after, a), "k2 = v2 and a = 1 after the restart");
+                }
+            }
+        }
+        println!("{{\"found\": false}}");
+    }
+}
+
 fn main() {
     let a: Vec<String> = std::env::args().collect();
     match a.get(1).map(|s| s.as_str()) {
         Some("frame-search") => frame_search(),
+        Some("store-torn-append") => store::torn_append(),
+        Some("store-search") => store::search(a.get(2).map(|s| s.parse().unwrap()).unwrap_or(0)),
+        Some("store-history") => {
+            // store-history <max_file_size> <all|none> <label> op;op;...
+            let ops: Vec<&str> = a[5].split(';').map(|s| s.trim()).filter(|s| !s.is_empty()).collect();
+            store::run_history(a[2].parse().unwrap(), &a[3], &ops, &a[4]);
+            println!("{{\"found\": false}}");
+        }
         Some("conn-search") => conn_search(),
         Some("frame-one") => frame_one(&a[2], a.get(3).map(|s| s.parse().unwrap()).unwrap_or(0)),
         Some("frame-deep") => {
